@@ -1507,5 +1507,7 @@ package flamego
 //@   panics !has(r.namedRoutes, name)
 //@   ensures has(r.namedRoutes, name)
 //@   ensures[C12] result == callresult(URLPath#0)
+// "withOptional" is an option, not a bind: once it has asked for the optional segment it is not handed on as a value
+//@   assert[C12] before URLPath#0: withOptional ==> !has(vals, "withOptional")
 //@   loop 0 invariant vals != nil && fresh(vals) && 1 <= i && leaf != nil
 //@   loop 0 invariant forall k string :: has(vals, k) ==> exists j int :: 1 <= j && j < i && pairs[j - 1] == k
